@@ -582,8 +582,11 @@ class Rule(MethodWIGM):
                 ##     calculated to four (4) decimal places, ignoring any remainder.
 
                 surplus = high_candidate.vote - E.quota
+                surplus_fraction = surplus / high_candidate.vote    # four places, remainder ignored
                 for b in (b for b in E.ballots if b.topRank == high_candidate.cid):
-                    b.weight = (b.weight * surplus) / high_candidate.vote
+                    ## 167.20 (Transfer value) ... calculated by multiplying the surplus fraction by its
+                    ##     current value, calculated to four (4) decimal places, ignoring any remainder.
+                    b.weight = surplus_fraction * b.weight
                     transfer(b)
                 high_candidate.vote = E.quota
                 E.surplus = sum([c.surplus for c in C], V0)
